@@ -77,7 +77,9 @@ fn area_addrs(a: u32) -> Vec<u32> {
     let mut v = vec![lo, lo + 0x10_0000, hi, lo + 1, hi - 1, lo + 0x0f_fffe];
     if a == 7 {
         // the end of area 7 holds on-chip RAM and I/O registers; H'FFFFEA-H'FFFFFF is external again
-        v = vec![lo, lo + 0x08_0000, 0xffbf1f, 0xffffea, 0xffffff, 0xfee100];
+        // - and both neighbours (odd and even) of every excluded block: an address next to a register block is
+        // ordinary external space, whatever the width of the access
+        v = vec![lo, lo + 0x08_0000, 0xffbf1f, 0xffffea, 0xffffff, 0xfee100, 0xfedfff, 0xfedffe, 0xfee101, 0xffbf1e, 0xffffeb, 0xfffffe];
     }
     v
 }
